@@ -645,6 +645,8 @@ from ..selftest import V  # noqa: E402
 
 EIGF, AMNF, MMNF = W90 + "eig.py", W90 + "amn.py", W90 + "mmn.py"
 SELFTEST = [
+    V("irreducible flag recomputed per file (seeded C19-m6)", W90 + "wandata.py",
+      "            if nkeys < NK:\n", "            irreducible = nkeys < NK\n            if nkeys < NK:\n", "fire", "R19.4"),
     V("EIG writer uses the Fortran layout without separators (seeded C19-m4)", W90 + "eig.py", 'file.write(f" {ib + 1:4d} {ik + 1:4d} {self.data[ik][ib]:17.12f}\\n")',
       'file.write(f"{ib + 1:5d}{ik + 1:5d}{self.data[ik][ib]:18.12f}\\n")', "fire", "R19.7"),
     V("EIG writer tuple-subscripts the dict (original defect)", EIGF, "{self.data[ik][ib]:17.12f}", "{self.data[ik, ib]:17.12f}",
